@@ -121,15 +121,17 @@ func VerifC18_ViewInactiveTopics() {
 	verifrt.Atomic(func() {
 		u := c18NewDaemons()
 		// bounds: per (nsqlookupd, topic) one of the first `states0` (first topic) / `states1`
-		// (second topic) registration states. fleet 0 = two nsqlookupd, three states for both
-		// topics; thorough adds fleet 1 = two nsqlookupd, all five states for the first topic, and
-		// fleet 2 = three nsqlookupd (in both the second topic is unknown or without producer).
+		// (second topic) registration states. fleet 0 = two nsqlookupd, two topics, three states
+		// each; thorough adds fleet 1 = two nsqlookupd, all five states for the first topic (the
+		// second is unknown or without producer), and fleet 2 = three nsqlookupd, one topic.
+		// (Every upstream fan-out of nsqadmin is one goroutine per nsqlookupd whose completion
+		// orders are all explored: n! schedules per fan-out, 1 + 2 per topic fan-outs per view.)
 		nL, nT, states0, states1 := 2, 2, 3, 3
-		switch 1 {
+		switch verifrt.Choice("inactive:fleet", verifrt.Bound("inactive:fleets", 1, 3)) {
 		case 1:
 			states0, states1 = 5, 2
 		case 2:
-			nL, states1 = 3, 2
+			nL, nT = 3, 1
 		}
 
 		// topic names: plain words (they are the keys of the view's JSON object and part of the
@@ -249,6 +251,8 @@ func VerifC18_ViewInactiveTopics() {
 			verifrt.Reach("view-inactive:same-channel-on-two-lookupds", knowers >= 2 && len(want) == 2 && len(got) == 1)
 			if verifrt.Tier() == 1 {
 				verifrt.Reach("view-inactive:topic-without-channels", len(want) == 0 && cnt == 1 && len(got) == 0)
+				verifrt.Reach("view-inactive:listed-with-two-of-three-lookupds-failing", nL == 3 && failed == 2 && cnt == 1)
+				verifrt.Reach("view-inactive:channels-from-three-lookupds", nL == 3 && knowers == 3 && len(got) == 3)
 			}
 		}
 		verifrt.Assert(len(v.Topics) == expected, "view-inactive:nothing-but-the-inactive-topics")
